@@ -222,39 +222,39 @@ macro_rules! alu_rri {
 // ---------------------------------------------------------------------------------------------
 // C21: register arithmetic / logic.  Specs are written from the FuelVM instruction set, not from alu.rs.
 // ---------------------------------------------------------------------------------------------
-//@ props=C21 tier=quick class=proved-fin -- ADD: all operands, flags, gas, all 64 destinations
+//@ props=C21,C25,C26,C29 tier=quick class=proved-fin -- ADD: all operands, flags, gas, all 64 destinations
 alu_rrr!(c21_add, ADD, COST_add, |pre, b, c| capture(&pre, b as u128 + c as u128));
-//@ props=C21 tier=quick class=proved-fin -- ADDI
+//@ props=C21,C25:thorough,C26:thorough,C29:thorough tier=quick class=proved-fin -- ADDI
 alu_rri!(c21_addi, ADDI, COST_addi, |pre, b, c| capture(&pre, b as u128 + c as u128));
-//@ props=C21 tier=quick class=proved-fin -- SUB: underflow wraps with $of = high half of the 128-bit difference
+//@ props=C21,C25:thorough,C26:thorough,C29:thorough tier=quick class=proved-fin -- SUB: underflow wraps with $of = high half of the 128-bit difference
 alu_rrr!(c21_sub, SUB, COST_sub, |pre, b, c| capture(&pre, (b as u128).wrapping_sub(c as u128)));
-//@ props=C21 tier=quick class=proved-fin -- SUBI
+//@ props=C21,C25:thorough,C26:thorough,C29:thorough tier=quick class=proved-fin -- SUBI
 alu_rri!(c21_subi, SUBI, COST_subi, |pre, b, c| capture(&pre, (b as u128).wrapping_sub(c as u128)));
-//@ props=C21 tier=quick class=proved-fin -- AND
+//@ props=C21,C25:thorough,C26:thorough,C29:thorough tier=quick class=proved-fin -- AND
 alu_rrr!(c21_and, AND, COST_and, |pre, b, c| plain(b & c));
-//@ props=C21 tier=quick class=proved-fin -- ANDI
+//@ props=C21,C25:thorough,C26:thorough,C29:thorough tier=quick class=proved-fin -- ANDI
 alu_rri!(c21_andi, ANDI, COST_andi, |pre, b, c| plain(b & c));
-//@ props=C21 tier=quick class=proved-fin -- OR
+//@ props=C21,C25:thorough,C26:thorough,C29:thorough tier=quick class=proved-fin -- OR
 alu_rrr!(c21_or, OR, COST_or, |pre, b, c| plain(b | c));
-//@ props=C21 tier=quick class=proved-fin -- ORI
+//@ props=C21,C25:thorough,C26:thorough,C29:thorough tier=quick class=proved-fin -- ORI
 alu_rri!(c21_ori, ORI, COST_ori, |pre, b, c| plain(b | c));
-//@ props=C21 tier=quick class=proved-fin -- XOR
+//@ props=C21,C25:thorough,C26:thorough,C29:thorough tier=quick class=proved-fin -- XOR
 alu_rrr!(c21_xor, XOR, COST_xor, |pre, b, c| plain(b ^ c));
-//@ props=C21 tier=quick class=proved-fin -- XORI
+//@ props=C21,C25:thorough,C26:thorough,C29:thorough tier=quick class=proved-fin -- XORI
 alu_rri!(c21_xori, XORI, COST_xori, |pre, b, c| plain(b ^ c));
-//@ props=C21 tier=quick class=proved-fin -- EQ
+//@ props=C21,C25:thorough,C26:thorough,C29:thorough tier=quick class=proved-fin -- EQ
 alu_rrr!(c21_eq, EQ, COST_eq, |pre, b, c| plain((b == c) as Word));
-//@ props=C21 tier=quick class=proved-fin -- GT
+//@ props=C21,C25:thorough,C26:thorough,C29:thorough tier=quick class=proved-fin -- GT
 alu_rrr!(c21_gt, GT, COST_gt, |pre, b, c| plain((b > c) as Word));
-//@ props=C21 tier=quick class=proved-fin -- LT
+//@ props=C21,C25:thorough,C26:thorough,C29:thorough tier=quick class=proved-fin -- LT
 alu_rrr!(c21_lt, LT, COST_lt, |pre, b, c| plain((b < c) as Word));
-//@ props=C21 tier=quick class=proved-fin -- SLL: shift amounts >= 64 give 0
+//@ props=C21,C25:thorough,C26:thorough,C29:thorough tier=quick class=proved-fin -- SLL: shift amounts >= 64 give 0
 alu_rrr!(c21_sll, SLL, COST_sll, |pre, b, c| plain(if c >= 64 { 0 } else { b << c }));
-//@ props=C21 tier=quick class=proved-fin -- SLLI
+//@ props=C21,C25:thorough,C26:thorough,C29:thorough tier=quick class=proved-fin -- SLLI
 alu_rri!(c21_slli, SLLI, COST_slli, |pre, b, c| plain(if c >= 64 { 0 } else { b << c }));
-//@ props=C21 tier=quick class=proved-fin -- SRL
+//@ props=C21,C25:thorough,C26:thorough,C29:thorough tier=quick class=proved-fin -- SRL
 alu_rrr!(c21_srl, SRL, COST_srl, |pre, b, c| plain(if c >= 64 { 0 } else { b >> c }));
-//@ props=C21 tier=quick class=proved-fin -- SRLI
+//@ props=C21,C25:thorough,C26:thorough,C29:thorough tier=quick class=proved-fin -- SRLI
 alu_rri!(c21_srli, SRLI, COST_srli, |pre, b, c| plain(if c >= 64 { 0 } else { b >> c }));
 
 // ---------------------------------------------------------------------------------------------
@@ -290,21 +290,21 @@ macro_rules! alu_stubbed {
     };
 }
 
-//@ props=C21 tier=quick class=proved-fin -- MUL glue: operands, $of = high half, overflow panic, frame (u128::overflowing_mul abstracted)
+//@ props=C21,C25:thorough,C26:thorough,C29:thorough tier=quick class=proved-fin -- MUL glue: operands, $of = high half, overflow panic, frame (u128::overflowing_mul abstracted)
 alu_stubbed!(c21_mul, u128::overflowing_mul, mul_model, |vm, pre, mid| {
     let (ra, rb, rc) = (any_reg(), any_reg(), any_reg());
     let mid = after_gas(&pre, COST_mul);
     let res = op::MUL::new(ra, rb, rc).execute(&mut vm);
     check_alu(&pre, &vm, res, ra, COST_mul, capture(&pre, mul_model(mid[ri(rb)] as u128, mid[ri(rc)] as u128).0));
 });
-//@ props=C21 tier=quick class=proved-fin -- MULI glue (u128::overflowing_mul abstracted)
+//@ props=C21,C25:thorough,C26:thorough,C29:thorough tier=quick class=proved-fin -- MULI glue (u128::overflowing_mul abstracted)
 alu_stubbed!(c21_muli, u128::overflowing_mul, mul_model, |vm, pre, mid| {
     let (ra, rb, imm) = (any_reg(), any_reg(), any_imm12());
     let mid = after_gas(&pre, COST_muli);
     let res = op::MULI::new(ra, rb, imm).execute(&mut vm);
     check_alu(&pre, &vm, res, ra, COST_muli, capture(&pre, mul_model(mid[ri(rb)] as u128, imm.to_u16() as u128).0));
 });
-//@ props=C21 tier=quick class=proved-fin -- MOD glue: zero divisor => $err/ArithmeticError (u64::wrapping_rem abstracted)
+//@ props=C21,C25:thorough,C26:thorough,C29:thorough tier=quick class=proved-fin -- MOD glue: zero divisor => $err/ArithmeticError (u64::wrapping_rem abstracted)
 alu_stubbed!(c21_mod, u64::wrapping_rem, rem_model, |vm, pre, mid| {
     let (ra, rb, rc) = (any_reg(), any_reg(), any_reg());
     let mid = after_gas(&pre, COST_mod_op);
@@ -312,7 +312,7 @@ alu_stubbed!(c21_mod, u64::wrapping_rem, rem_model, |vm, pre, mid| {
     let res = op::MOD::new(ra, rb, rc).execute(&mut vm);
     check_alu(&pre, &vm, res, ra, COST_mod_op, erroring(&pre, if c == 0 { 0 } else { rem_model(b, c) }, c == 0));
 });
-//@ props=C21 tier=quick class=proved-fin -- MODI glue (u64::wrapping_rem abstracted)
+//@ props=C21,C25:thorough,C26:thorough,C29:thorough tier=quick class=proved-fin -- MODI glue (u64::wrapping_rem abstracted)
 alu_stubbed!(c21_modi, u64::wrapping_rem, rem_model, |vm, pre, mid| {
     let (ra, rb, imm) = (any_reg(), any_reg(), any_imm12());
     let mid = after_gas(&pre, COST_modi);
@@ -320,7 +320,7 @@ alu_stubbed!(c21_modi, u64::wrapping_rem, rem_model, |vm, pre, mid| {
     let res = op::MODI::new(ra, rb, imm).execute(&mut vm);
     check_alu(&pre, &vm, res, ra, COST_modi, erroring(&pre, if c == 0 { 0 } else { rem_model(b, c) }, c == 0));
 });
-//@ props=C21 tier=quick class=proved-fin -- EXP glue incl. exponents above u32::MAX (u64::overflowing_pow abstracted)
+//@ props=C21,C25:thorough,C26:thorough,C29:thorough tier=quick class=proved-fin -- EXP glue incl. exponents above u32::MAX (u64::overflowing_pow abstracted)
 alu_stubbed!(c21_exp, u64::overflowing_pow, pow_model, |vm, pre, mid| {
     let (ra, rb, rc) = (any_reg(), any_reg(), any_reg());
     let mid = after_gas(&pre, COST_exp);
@@ -330,7 +330,7 @@ alu_stubbed!(c21_exp, u64::overflowing_pow, pow_model, |vm, pre, mid| {
     let (v, o) = if c <= u32::MAX as u64 { pow_model(b, c as u32) } else if b < 2 { (b, false) } else { (0, true) };
     check_alu(&pre, &vm, res, ra, COST_exp, boolean(&pre, v, o));
 });
-//@ props=C21 tier=quick class=proved-fin -- EXPI glue (u64::overflowing_pow abstracted)
+//@ props=C21,C25:thorough,C26:thorough,C29:thorough tier=quick class=proved-fin -- EXPI glue (u64::overflowing_pow abstracted)
 alu_stubbed!(c21_expi, u64::overflowing_pow, pow_model, |vm, pre, mid| {
     let (ra, rb, imm) = (any_reg(), any_reg(), any_imm12());
     let mid = after_gas(&pre, COST_expi);
@@ -338,7 +338,7 @@ alu_stubbed!(c21_expi, u64::overflowing_pow, pow_model, |vm, pre, mid| {
     let (v, o) = pow_model(mid[ri(rb)], imm.to_u16() as u32);
     check_alu(&pre, &vm, res, ra, COST_expi, boolean(&pre, v, o));
 });
-//@ props=C21 tier=quick class=proved-fin -- MLOG glue: b == 0 or c <= 1 is the error case (u64::checked_ilog abstracted)
+//@ props=C21,C25:thorough,C26:thorough,C29:thorough tier=quick class=proved-fin -- MLOG glue: b == 0 or c <= 1 is the error case (u64::checked_ilog abstracted)
 alu_stubbed!(c21_mlog, u64::checked_ilog, ilog_model, |vm, pre, mid| {
     let (ra, rb, rc) = (any_reg(), any_reg(), any_reg());
     let mid = after_gas(&pre, COST_mlog);
@@ -373,13 +373,13 @@ macro_rules! alu_div_bounded {
         }
     };
 }
-//@ props=C21 tier=quick class=bounded(operands<2^16) -- DIV with real division, operands below 2^16 (divider circuit too large for CBMC at 64 bits)
+//@ props=C21,C25,C26,C29 tier=quick class=bounded(operands<2^16) -- DIV with real division, operands below 2^16 (divider circuit too large for CBMC at 64 bits)
 alu_div_bounded!(c21_div, DIV, COST_div, false);
-//@ props=C21 tier=quick class=bounded(operands<2^16) -- DIVI
+//@ props=C21,C25:thorough,C26:thorough,C29:thorough tier=quick class=bounded(operands<2^16) -- DIVI
 alu_div_bounded!(c21_divi, DIVI, COST_divi, true);
 
 // ---- two-operand / immediate moves ---------------------------------------------------------------
-//@ props=C21 tier=quick class=proved-fin -- NOT
+//@ props=C21,C25:thorough,C26:thorough,C29:thorough tier=quick class=proved-fin -- NOT
 #[kani::proof]
 #[kani::stub(crate::constraints::reg_key::split_registers, split_registers_stub)]
 fn c21_not() {
@@ -391,7 +391,7 @@ fn c21_not() {
     check_alu(&pre, &vm, res, ra, COST_not, plain(!mid[ri(rb)]));
     core::mem::forget(vm);
 }
-//@ props=C21 tier=quick class=proved-fin -- MOVE
+//@ props=C21,C25:thorough,C26:thorough,C29:thorough tier=quick class=proved-fin -- MOVE
 #[kani::proof]
 #[kani::stub(crate::constraints::reg_key::split_registers, split_registers_stub)]
 fn c21_move() {
@@ -403,7 +403,7 @@ fn c21_move() {
     check_alu(&pre, &vm, res, ra, COST_move_op, plain(mid[ri(rb)]));
     core::mem::forget(vm);
 }
-//@ props=C21 tier=quick class=proved-fin -- MOVI (all 2^18 immediates)
+//@ props=C21,C25,C26,C29 tier=quick class=proved-fin -- MOVI (all 2^18 immediates)
 #[kani::proof]
 #[kani::stub(crate::constraints::reg_key::split_registers, split_registers_stub)]
 fn c21_movi() {
@@ -414,7 +414,7 @@ fn c21_movi() {
     check_alu(&pre, &vm, res, ra, COST_movi, plain(imm.to_u32() as Word));
     core::mem::forget(vm);
 }
-//@ props=C21 tier=quick class=proved-fin -- NOOP clears $of/$err, advances pc, changes nothing else
+//@ props=C21,C25:thorough,C26:thorough,C29:thorough tier=quick class=proved-fin -- NOOP clears $of/$err, advances pc, changes nothing else
 #[kani::proof]
 #[kani::stub(crate::constraints::reg_key::split_registers, split_registers_stub)]
 fn c21_noop() {
@@ -432,7 +432,7 @@ fn c21_noop() {
     }
     core::mem::forget(vm);
 }
-//@ props=C21 tier=quick class=proved-fin -- FLAG: valid flag words are 0..=3, anything else InvalidFlags; $of/$err untouched
+//@ props=C21,C25,C26,C29 tier=quick class=proved-fin -- FLAG: valid flag words are 0..=3, anything else InvalidFlags; $of/$err untouched
 #[kani::proof]
 #[kani::stub(crate::constraints::reg_key::split_registers, split_registers_stub)]
 fn c21_flag() {
@@ -458,25 +458,29 @@ fn c21_flag() {
 }
 
 // ---- NIOP: narrow integer operations --------------------------------------------------------------
-pub fn checked_pow_model(a: u64, e: u32) -> Option<u64> { let (v, o) = pow_model(a, e); if o { None } else { Some(v) } }
-//@ props=C21 tier=quick class=proved-fin -- NIOP: all 64 immediates (6 ops x 3 widths valid, rest InvalidImmediateValue), operands truncated to the width, $of per op (u64::checked_pow abstracted for EXP)
-#[kani::proof]
-#[kani::stub(crate::constraints::reg_key::split_registers, split_registers_stub)]
-#[kani::stub(u64::checked_pow, checked_pow_model)]
-fn c21_niop() {
+/// abstract model of u64::checked_pow for NIOP: results range over small and large values and
+/// depend on every bit of both arguments, so a changed base or exponent changes the outcome
+pub fn checked_pow_model(a: u64, e: u32) -> Option<u64> {
+    let v = a.rotate_left(1) ^ (e as u64) ^ 0x2b;
+    if ((a >> 3) ^ ((e as u64) >> 5)) & 1 == 1 { None } else { Some(v) }
+}
+/// NIOP contract for the immediates whose low nibble is `opc_lo..=opc_hi` (split for CBMC).
+fn niop_contract(opc_lo: u8, opc_hi: u8) {
     let mut vm = new_vm();
     let pre = sym_registers(&mut vm);
     let (ra, rb, rc, imm) = (any_reg(), any_reg(), any_reg(), any_imm06());
-    let mid = after_gas(&pre, COST_niop);
-    let res = op::NIOP::new(ra, rb, rc, imm).execute(&mut vm);
     let bits = imm.to_u8();
     let (opc, wc) = (bits & 0xf, (bits >> 4) & 3);
+    kani::assume(opc >= opc_lo && opc <= opc_hi);
+    let mid = after_gas(&pre, COST_niop);
+    let res = op::NIOP::new(ra, rb, rc, imm).execute(&mut vm);
     if COST_niop <= pre[R_CGAS] && (opc > 5 || wc > 2) {
         assert!(panic_of(&res) == Some(PanicReason::InvalidImmediateValue), "C21 NIOP invalid immediate");
         assert!(unchanged_except(&pre, &vm.registers, &[R_CGAS, R_GGAS]));
     } else {
         let w: u32 = if wc == 0 { 8 } else if wc == 1 { 16 } else { 32 };
         let m: u64 = (1u64 << w) - 1;
+        // both operands are truncated to the operation width before anything else
         let (l, r) = (mid[ri(rb)] & m, mid[ri(rc)] & m);
         let (val, of): (u64, u64) = match opc {
             0 => ((l + r) & m, (l + r) >> w),
@@ -489,5 +493,206 @@ fn c21_niop() {
         let out = if of != 0 && !wrapping(&pre) { Out::Panic(PanicReason::ArithmeticOverflow) } else { Out::Write { val, of, err: 0 } };
         check_alu(&pre, &vm, res, ra, COST_niop, out);
     }
+    core::mem::forget(vm);
+}
+macro_rules! niop_harness {
+    ($name:ident, $lo:expr, $hi:expr) => {
+        #[kani::proof]
+        #[kani::stub(crate::constraints::reg_key::split_registers, split_registers_stub)]
+        #[kani::stub(u64::checked_pow, checked_pow_model)]
+        fn $name() { niop_contract($lo, $hi); }
+    };
+}
+//@ props=C21,C25,C26,C29 tier=quick class=proved-fin -- NIOP ADD (3 widths + invalid widths): operands truncated to the width, result and $of split at the width
+niop_harness!(c21_niop_add, 0, 0);
+//@ props=C21,C25:thorough,C26:thorough,C29:thorough tier=quick class=proved-fin -- NIOP SUB: borrow gives $of = all ones
+niop_harness!(c21_niop_sub, 1, 1);
+//@ props=C21,C25:thorough,C26:thorough,C29:thorough tier=quick class=proved-fin -- NIOP MUL
+niop_harness!(c21_niop_mul, 2, 2);
+//@ props=C21,C25:thorough,C26:thorough,C29:thorough tier=quick class=proved-fin -- NIOP EXP: result 0 and $of = 1 when it does not fit the width (u64::checked_pow abstracted)
+niop_harness!(c21_niop_exp, 3, 3);
+//@ props=C21,C25:thorough,C26:thorough,C29:thorough tier=quick class=proved-fin -- NIOP SLL: shift amount is the truncated right operand
+niop_harness!(c21_niop_sll, 4, 4);
+//@ props=C21,C25:thorough,C26:thorough,C29:thorough tier=quick class=proved-fin -- NIOP XNOR
+niop_harness!(c21_niop_xnor, 5, 5);
+//@ props=C21,C25:thorough,C26:thorough,C29:thorough tier=quick class=proved-fin -- NIOP undefined operation codes 6..=15 => InvalidImmediateValue
+niop_harness!(c21_niop_invalid, 6, 15);
+
+// ---------------------------------------------------------------------------------------------
+// C25: control flow.  Targets are computed in unbounded (i128) arithmetic from the instruction-set
+// formulas; the instruction must land there or panic with MemoryOverflow when the target falls
+// outside memory; an untaken conditional jump advances by one instruction.
+// ---------------------------------------------------------------------------------------------
+pub fn check_jump(pre: &[Word; 64], vm: &Vm, res: Res, cost: Word, taken: bool, target: i128, link: Option<(RegId, Word)>) {
+    let post = &vm.registers;
+    assert!(!matches!(res, Err(RuntimeError::Bug(_))), "C29 no internal-bug error");
+    assert!(post[R_CGAS] <= post[R_GGAS] && post[R_GGAS] <= pre[R_GGAS], "C26 gas invariants");
+    if cost > pre[R_CGAS] {
+        assert!(panic_of(&res) == Some(PanicReason::OutOfGas) && post[R_CGAS] == 0, "C26 out of gas");
+        assert!(unchanged_except(pre, post, &[R_CGAS, R_GGAS]), "C26 out-of-gas performs no other effect");
+        return;
+    }
+    assert!(post[R_CGAS] == pre[R_CGAS] - cost && post[R_GGAS] == pre[R_GGAS] - cost, "C26 jump consumes exactly the scheduled gas");
+    if let Some((r, _)) = link {
+        let a = ri(r);
+        if a != 0 && a < 16 {
+            assert!(panic_of(&res) == Some(PanicReason::ReservedRegisterNotWritable), "C25 JAL refuses a reserved link register");
+            assert!(unchanged_except(pre, post, &[R_CGAS, R_GGAS]));
+            return;
+        }
+    }
+    if !taken {
+        assert!(matches!(res, Ok(ExecuteState::Proceed)), "C25 untaken jump succeeds");
+        assert!(post[R_PC] == pre[R_PC] + 4, "C25 untaken conditional jump advances by one instruction");
+        assert!(unchanged_except(pre, post, &[R_PC, R_CGAS, R_GGAS]), "C25 untaken jump frame");
+        return;
+    }
+    if target < 0 || target >= VM_MAX_RAM as i128 {
+        assert!(panic_of(&res) == Some(PanicReason::MemoryOverflow), "C25 jump target outside memory panics with MemoryOverflow");
+        assert!(post[R_PC] == pre[R_PC], "C25 failed jump leaves pc in place");
+        return;
+    }
+    assert!(matches!(res, Ok(ExecuteState::Proceed)), "C25 in-range jump succeeds");
+    assert!(post[R_PC] as i128 == target, "C25 jump lands exactly on the specified target");
+    match link {
+        Some((r, v)) if ri(r) != 0 => {
+            assert!(post[ri(r)] == v, "C25 JAL stores the return address");
+            assert!(unchanged_except(pre, post, &[ri(r), R_PC, R_CGAS, R_GGAS]), "C25 JAL frame");
+        }
+        _ => assert!(unchanged_except(pre, post, &[R_PC, R_CGAS, R_GGAS]), "C25 jump changes only pc"),
+    }
+}
+
+macro_rules! jump_harness {
+    ($name:ident, |$vm:ident, $pre:ident, $mid:ident| $cost:expr, $body:block) => {
+        #[kani::proof]
+        #[kani::stub(crate::constraints::reg_key::split_registers, split_registers_stub)]
+        fn $name() {
+            let mut $vm = new_vm();
+            let $pre = sym_registers(&mut $vm);
+            let $mid = after_gas(&$pre, $cost);
+            $body;
+            core::mem::forget($vm);
+        }
+    };
+}
+fn m(x: Word) -> i128 { x as i128 }
+
+//@ props=C25,C26:thorough,C29:thorough tier=quick class=proved-fin -- JI: pc = $is + 4*imm (all 2^24 immediates)
+jump_harness!(c25_ji, |vm, pre, mid| COST_ji, {
+    let imm = any_imm24();
+    let res = op::JI::new(imm).execute(&mut vm);
+    check_jump(&pre, &vm, res, COST_ji, true, m(mid[R_IS]) + 4 * m(imm.to_u32() as Word), None);
+});
+//@ props=C25,C26,C29 tier=quick class=proved-fin -- JNEI
+jump_harness!(c25_jnei, |vm, pre, mid| COST_jnei, {
+    let (ra, rb, imm) = (any_reg(), any_reg(), any_imm12());
+    let res = op::JNEI::new(ra, rb, imm).execute(&mut vm);
+    check_jump(&pre, &vm, res, COST_jnei, mid[ri(ra)] != mid[ri(rb)], m(mid[R_IS]) + 4 * m(imm.to_u16() as Word), None);
+});
+//@ props=C25,C26:thorough,C29:thorough tier=quick class=proved-fin -- JNZI
+jump_harness!(c25_jnzi, |vm, pre, mid| COST_jnzi, {
+    let (ra, imm) = (any_reg(), any_imm18());
+    let res = op::JNZI::new(ra, imm).execute(&mut vm);
+    check_jump(&pre, &vm, res, COST_jnzi, mid[ri(ra)] != 0, m(mid[R_IS]) + 4 * m(imm.to_u32() as Word), None);
+});
+//@ props=C25,C26:thorough,C29:thorough tier=quick class=proved-fin -- JMP: pc = $is + 4*$rA
+jump_harness!(c25_jmp, |vm, pre, mid| COST_jmp, {
+    let ra = any_reg();
+    let res = op::JMP::new(ra).execute(&mut vm);
+    check_jump(&pre, &vm, res, COST_jmp, true, m(mid[R_IS]) + 4 * m(mid[ri(ra)]), None);
+});
+//@ props=C25,C26:thorough,C29:thorough tier=quick class=proved-fin -- JNE
+jump_harness!(c25_jne, |vm, pre, mid| COST_jne, {
+    let (ra, rb, rc) = (any_reg(), any_reg(), any_reg());
+    let res = op::JNE::new(ra, rb, rc).execute(&mut vm);
+    check_jump(&pre, &vm, res, COST_jne, mid[ri(ra)] != mid[ri(rb)], m(mid[R_IS]) + 4 * m(mid[ri(rc)]), None);
+});
+//@ props=C25,C26:thorough,C29:thorough tier=quick class=proved-fin -- JMPF: pc += 4*($rA + imm + 1)
+jump_harness!(c25_jmpf, |vm, pre, mid| COST_jmpf, {
+    let (ra, imm) = (any_reg(), any_imm18());
+    let res = op::JMPF::new(ra, imm).execute(&mut vm);
+    check_jump(&pre, &vm, res, COST_jmpf, true, m(mid[R_PC]) + 4 * (m(mid[ri(ra)]) + m(imm.to_u32() as Word) + 1), None);
+});
+//@ props=C25,C26,C29 tier=quick class=proved-fin -- JMPB: pc -= 4*($rA + imm + 1)
+jump_harness!(c25_jmpb, |vm, pre, mid| COST_jmpb, {
+    let (ra, imm) = (any_reg(), any_imm18());
+    let res = op::JMPB::new(ra, imm).execute(&mut vm);
+    check_jump(&pre, &vm, res, COST_jmpb, true, m(mid[R_PC]) - 4 * (m(mid[ri(ra)]) + m(imm.to_u32() as Word) + 1), None);
+});
+//@ props=C25,C26:thorough,C29:thorough tier=quick class=proved-fin -- JNZF
+jump_harness!(c25_jnzf, |vm, pre, mid| COST_jnzf, {
+    let (ra, rb, imm) = (any_reg(), any_reg(), any_imm12());
+    let res = op::JNZF::new(ra, rb, imm).execute(&mut vm);
+    check_jump(&pre, &vm, res, COST_jnzf, mid[ri(ra)] != 0, m(mid[R_PC]) + 4 * (m(mid[ri(rb)]) + m(imm.to_u16() as Word) + 1), None);
+});
+//@ props=C25,C26:thorough,C29:thorough tier=quick class=proved-fin -- JNZB
+jump_harness!(c25_jnzb, |vm, pre, mid| COST_jnzb, {
+    let (ra, rb, imm) = (any_reg(), any_reg(), any_imm12());
+    let res = op::JNZB::new(ra, rb, imm).execute(&mut vm);
+    check_jump(&pre, &vm, res, COST_jnzb, mid[ri(ra)] != 0, m(mid[R_PC]) - 4 * (m(mid[ri(rb)]) + m(imm.to_u16() as Word) + 1), None);
+});
+//@ props=C25,C26:thorough,C29:thorough tier=quick class=proved-fin -- JNEF
+jump_harness!(c25_jnef, |vm, pre, mid| COST_jnef, {
+    let (ra, rb, rc, imm) = (any_reg(), any_reg(), any_reg(), any_imm06());
+    let res = op::JNEF::new(ra, rb, rc, imm).execute(&mut vm);
+    check_jump(&pre, &vm, res, COST_jnef, mid[ri(ra)] != mid[ri(rb)], m(mid[R_PC]) + 4 * (m(mid[ri(rc)]) + m(imm.to_u8() as Word) + 1), None);
+});
+//@ props=C25,C26:thorough,C29:thorough tier=quick class=proved-fin -- JNEB
+jump_harness!(c25_jneb, |vm, pre, mid| COST_jneb, {
+    let (ra, rb, rc, imm) = (any_reg(), any_reg(), any_reg(), any_imm06());
+    let res = op::JNEB::new(ra, rb, rc, imm).execute(&mut vm);
+    check_jump(&pre, &vm, res, COST_jneb, mid[ri(ra)] != mid[ri(rb)], m(mid[R_PC]) - 4 * (m(mid[ri(rc)]) + m(imm.to_u8() as Word) + 1), None);
+});
+//@ props=C25,C26,C29 tier=quick class=proved-fin -- JAL: $rA = pc + 4 (discarded for $zero, reserved registers refused), pc = $rB + 4*imm; charged as jmp (the schedule has no jal entry)
+jump_harness!(c25_jal, |vm, pre, mid| COST_jmp, {
+    let (ra, rb, imm) = (any_reg(), any_reg(), any_imm12());
+    let res = op::JAL::new(ra, rb, imm).execute(&mut vm);
+    // the target register is read after the link register has been written
+    let base = if ra == rb && ri(ra) >= 16 { mid[R_PC] + 4 } else { mid[ri(rb)] };
+    check_jump(&pre, &vm, res, COST_jmp, true, m(base) + 4 * m(imm.to_u16() as Word), Some((ra, mid[R_PC] + 4)));
+});
+
+// ---------------------------------------------------------------------------------------------
+// C26: the gas-charging primitive, full domain
+// ---------------------------------------------------------------------------------------------
+//@ props=C26 tier=quick class=proved-fin -- gas_charge(cgas, ggas, cost) for all u64 triples with cgas <= ggas: affordable => both decrease by cost; else OutOfGas, cgas' = 0, ggas' = ggas - cgas; cgas' <= ggas' and ggas' <= ggas always
+#[kani::proof]
+fn c26_gas_charge() {
+    let mut cgas: Word = kani::any();
+    let mut ggas: Word = kani::any();
+    let cost: Word = kani::any();
+    kani::assume(cgas <= ggas);
+    let (c0, g0) = (cgas, ggas);
+    let r = crate::interpreter::gas::gas_charge(RegMut::new(&mut cgas), RegMut::new(&mut ggas), cost);
+    if cost <= c0 {
+        assert!(r.is_ok(), "C26 affordable charge succeeds");
+        assert!(cgas == c0 - cost && ggas == g0 - cost, "C26 both gas registers decrease by exactly the cost");
+    } else {
+        assert!(matches!(r, Err(crate::error::PanicOrBug::Panic(PanicReason::OutOfGas))), "C26 out of gas exactly when cost exceeds context gas");
+        assert!(cgas == 0 && ggas == g0 - c0, "C26 out of gas leaves context gas at zero and burns it from global gas");
+    }
+    assert!(cgas <= ggas && ggas <= g0, "C26 context gas never exceeds global gas; global gas never increases");
+}
+
+// ---- MLDV: fused multiply-divide. `muldiv` itself is proved in Verus (unit c21_muldiv); here it is
+// replaced by an abstract model and the instruction glue is proved.
+pub fn muldiv_model(a: u64, b: u64, d: u64) -> (u64, u64) {
+    let r = (a ^ b.rotate_left(23) ^ d.rotate_left(47)).wrapping_add(0x9e37_79b9_7f4a_7c15);
+    (r, if r & 0x10 != 0 { r >> 7 } else { 0 })
+}
+//@ props=C21,C25,C26,C29 tier=quick class=proved-fin -- MLDV glue: $rA = low word, $of = high word of (b*c)/d, ArithmeticOverflow unless WRAPPING when the quotient exceeds 64 bits; reserved destination refused before any effect (muldiv abstracted; proved in Verus unit c21_muldiv)
+#[kani::proof]
+#[kani::stub(crate::constraints::reg_key::split_registers, split_registers_stub)]
+#[kani::stub(crate::interpreter::alu::muldiv::muldiv, muldiv_model)]
+fn c21_mldv() {
+    let mut vm = new_vm();
+    let pre = sym_registers(&mut vm);
+    let (ra, rb, rc, rd) = (any_reg(), any_reg(), any_reg(), any_reg());
+    let mid = after_gas(&pre, COST_mldv);
+    let res = op::MLDV::new(ra, rb, rc, rd).execute(&mut vm);
+    let (val, of) = muldiv_model(mid[ri(rb)], mid[ri(rc)], mid[ri(rd)]);
+    let out = if of != 0 && !wrapping(&pre) { Out::Panic(PanicReason::ArithmeticOverflow) } else { Out::Write { val, of, err: 0 } };
+    check_alu(&pre, &vm, res, ra, COST_mldv, out);
     core::mem::forget(vm);
 }
